@@ -98,6 +98,40 @@ def worker(states):
     return out
 
 
+
+
+def replay(path):
+    """re-run one stored case (bin/check C07 --replay <file>) against the library as it is now"""
+    import json
+    blob = json.load(open(path))
+    st = _state_of(blob['case'])
+    if st is None:
+        print('REPLAY property=C07: %s holds a recorded observation, not a case of the enumerated universe; it was rejected with: %s'
+              % (path, str(blob.get('why'))[:300]))
+        print('(the file alone does not allow the case to be re-executed: re-run bin/check C07 to observe the library again)')
+        return 2
+    out = _replay_states([st])
+    if out['bad']:
+        print('VIOLATION property=C07 replay=%s' % path)
+        print('  why: %s' % (str(out['bad'][0]['why'])[:400],))
+        return 1
+    print('REPLAY property=C07: the stored case agrees with the specification now (%s)' % path)
+    return 0
+
+
+def _state_of(case):
+    if all(k in case for k in ('tree', 'caller', 'run')):
+        return dict(tree=case['tree'], caller=case['caller'], run=case['run'], phase=1, _flavour=case.get('flavour', 'vars'))
+    return None
+
+
+def _replay_states(states):
+    out = dict(n=0, nontrivial=0, bad=[], drift=[], samples=[])
+    for st in states:
+        one_case(out, st['tree'], st['run'], st['caller'], st['_flavour'])
+    return out
+
+
 FLAVOURS = ['vars', 'edict']      # thorough adds 'dict' (main)
 
 
@@ -107,12 +141,13 @@ def has_kind(tree, k):
 
 def one_case(out, tree, run, caller, flavour):
     if True:
+        run0 = run
         o1, log, why = run_tree(tree, caller, flavour)
         out['n'] += 1
         # the model's own "refuse" entries (which definition a Ref(name) resolved to) are not directly
         # observable: the definition that ran shows through the marks / readers inside it
         run = dict(run, log=[e for e in run['log'] if e['what'] != 'refuse'])
-        case = dict(tree=tree, caller=caller, flavour=flavour, predicted=[[e['p'], e['v']] for e in run['log']],
+        case = dict(tree=tree, caller=caller, flavour=flavour, run=run0, predicted=[[e['p'], e['v']] for e in run['log']],
                     observed=[[e['p'], e['v']] for e in log], text=repr(o1['spec']))
         if not why:
             if [e['p'] for e in log] != [e['p'] for e in run['log']]:
